@@ -33,8 +33,9 @@ EXTENDS Integers
 VARIABLES Len0,     \* length of the array
           Arr0,     \* initial contents: a function on 0 .. Len0-1 (0-based, as in the code)
           P0,       \* pivot position
-          arr, pv, i, j, pc, ret
-vars == <<Len0, Arr0, P0, arr, pv, i, j, pc, ret>>
+          arr, pv, i, j, pc, ret,
+          perm      \* ghost: perm[x] is the original position of the element now at x
+vars == <<Len0, Arr0, P0, arr, pv, i, j, pc, ret, perm>>
 params == <<Len0, Arr0, P0>>
 
 Assumptions ==
@@ -48,14 +49,15 @@ Swap(a, x, y) == [a EXCEPT ![x] = a[y], ![y] = a[x]]
 Init ==
     /\ Assumptions
     /\ arr = Arr0 /\ pv = 0 /\ i = 0 /\ j = 0 /\ pc = "Start" /\ ret = 0
+    /\ perm = [x \in 0 .. (Len0 - 1) |-> x]
 
 (* sort.rs:151-155 *)
 Start ==
     /\ pc = "Start"
     /\ IF P0 >= Len0
-       THEN pc' = "panic" /\ UNCHANGED <<arr, pv, i, j>>
+       THEN pc' = "panic" /\ UNCHANGED <<arr, pv, i, j, perm>>
        ELSE /\ pv' = arr[P0]
-            /\ arr' = Swap(arr, P0, 0)
+            /\ arr' = Swap(arr, P0, 0) /\ perm' = Swap(perm, P0, 0)
             /\ i' = 1
             /\ j' = Len0 - 1
             /\ pc' = "ScanI"
@@ -67,7 +69,7 @@ StepI ==
     /\ IF i > j THEN pc' = "ScanJ" /\ i' = i
        ELSE IF arr[i] >= pv THEN pc' = "ScanJ" /\ i' = i
        ELSE i' = i + 1 /\ pc' = "ScanI"
-    /\ UNCHANGED <<arr, pv, j, ret, params>>
+    /\ UNCHANGED <<arr, pv, j, ret, params, perm>>
 
 (* sort.rs:166-171, with the repaired guard `j <= 1' *)
 StepJ ==
@@ -77,17 +79,17 @@ StepJ ==
             ELSE IF j = 0 THEN pc' = "panic" /\ j' = j
             ELSE j' = j - 1 /\ pc' = "ScanJ"
        ELSE pc' = "Cmp" /\ j' = j
-    /\ UNCHANGED <<arr, pv, i, ret, params>>
+    /\ UNCHANGED <<arr, pv, i, ret, params, perm>>
 
 (* sort.rs:172-181 *)
 Cmp ==
     /\ pc = "Cmp"
     /\ IF i >= j
-       THEN /\ arr' = Swap(arr, 0, i - 1)
+       THEN /\ arr' = Swap(arr, 0, i - 1) /\ perm' = Swap(perm, 0, i - 1)
             /\ ret' = i - 1
             /\ pc' = "done"
             /\ UNCHANGED <<i, j>>
-       ELSE /\ arr' = Swap(arr, i, j)
+       ELSE /\ arr' = Swap(arr, i, j) /\ perm' = Swap(perm, i, j)
             /\ i' = i + 1
             /\ j' = j - 1
             /\ pc' = "ScanI"
@@ -137,6 +139,14 @@ Post ==
 
 StartOK == pc = "Start" => arr = Arr0
 
-Inv == TypeOK /\ NoPanicInRange /\ OorInv /\ CursorInv /\ LoopInv /\ Post /\ StartOK
+(* C03 for every length: the array is at all times a rearrangement of the original one - every cell holds the element *)
+(* of a distinct original cell (an injection of a finite set into itself is a bijection, so none is lost either)      *)
+PermInv ==
+    /\ perm \in [Idx -> Idx]
+    /\ \A x \in Idx : \A y \in Idx : x # y => perm[x] # perm[y]
+    /\ \A x \in Idx : arr[x] = Arr0[perm[x]]
+
+Core == TypeOK /\ NoPanicInRange /\ OorInv /\ CursorInv /\ LoopInv /\ Post /\ StartOK
+Inv == Core /\ PermInv
 
 =============================================================================
